@@ -184,7 +184,11 @@ CrashDiff(e) ==
 \* restarted build and the reference may disagree about it)
 CrashEquiv(e) ==
   IF e.info.double_exec # <<>>
-  THEN {<<c[1], c[2], "F25-double-execution-in-restarted-build">> : c \in CrashDiff(e)}
+  \* only what that defect explains: the crash on the second completion (and the outcome that follows
+  \* from it), and the amended dependencies of the re-created step that were lost with the old row
+  THEN {IF \/ c[1] \in {"restart_raised", "restart_outcome_differs"} /\ e.info.second_completion
+           \/ c[1] = "active_edges_differ" /\ c[2][3] /\ c[2][2] \in SeqSet(e.info.double_exec)
+        THEN <<c[1], c[2], "F25-double-execution-in-restarted-build">> ELSE c : c \in CrashDiff(e)}
   ELSE IF (RcClass(e.a.rc) = "failed" /\ StaleDefinerConflict(e.a)) \/ (RcClass(e.b.rc) = "failed" /\ StaleDefinerConflict(e.b))
   THEN {<<c[1], c[2], "F17-step-moved-between-plans-crash-vs-reference">> : c \in CrashDiff(e)}
   ELSE CrashDiff(e)
